@@ -126,6 +126,9 @@ def gen_groupdefs(rng, deep=False):
         base = rng.choice(["mine", "rel", "x", "tags", "branches", "misc", "Team"] + syms)
         if rng.random() < 0.03:
             base = rng.choice(["ignored", "other", "tags.other"])
+        elif rng.random() < 0.08:
+            # characters that mean something to a regular expression or a glob, legal in a gitconfig subsection
+            base = rng.choice(["al\\pha", "be(t)a", "gam++a", "de[l]ta", "st*r?", "open(", "a|b", "^hat$"])
         if rng.random() < 0.5 or deep:
             depth = rng.randrange(1, 4 if not deep else 14)
             sym = base + "".join("." + rng.choice(["a", "b", "sub", "v1", "Z"]) for _ in range(depth))
@@ -305,12 +308,20 @@ def parse_model_refs(line):
 
 def run_refs_case(eng, refs, defs, cfg, cli, toks, nroots=0, extra_args=None):
     """One CLI run (fakegit) with --show-refs and JSON v1; returns dict with impl/model results."""
+    # the references are spread over about half as many unrelated root commits, so that several references share an object
+    # and the number of commits traversed says exactly which references the walk was started from
     s, c = base_scenario()
-    for n in refs:
-        s.refs.append((n, c))
+    t = s.objects[c]["tree"]
+    srefs = sorted(refs)
+    k = max(1, (len(srefs) + 1) // 2)
+    pool = [c] + [s.add({"kind": "commit", "tree": t, "parents": [], "msg": b"root %d\n" % i}) for i in range(1, k)]
+    ref_commit = {}
+    for i, n in enumerate(srefs):
+        ref_commit[n] = pool[i % k]
+        s.refs.append((n, pool[i % k]))
     s.compute()
     explicit = [(s.oids[c].hex(), c)] if nroots else []
-    order = s.enum_gitlike([c])
+    order = s.enum_gitlike(pool)
     args = ["--show-refs"] + list(cli)
     rc, out, err, log = eng.run_fake(s, order, args, explicit, config=cfg, extra_args=extra_args)
     marks = {}
@@ -323,7 +334,8 @@ def run_refs_case(eng, refs, defs, cfg, cli, toks, nroots=0, extra_args=None):
                                      " ".join(vlib.hx(n) for n in sorted(refs)))
     line = " ".join(line.split())
     m = eng.model([line])[0]
-    return {"rc": rc, "out": out, "err": err, "marks": marks, "model": m, "model_request": line, "cli": args,
+    return {"rc": rc, "out": out, "err": err, "marks": marks, "model": m, "model_request": line, "cli": args, "ref_commit": ref_commit,
+            "root_commit": c if nroots else None,
             "config": cfg, "refs": [r.decode("latin1") for r in refs]}
 
 
